@@ -5,7 +5,8 @@ PROPS["C13"] = dict(
          "1..30 ms, burst of 1..60 prompt callbacks due together, cancel the head of the queue, idle gap > 2 idle timeouts, sleeps}, steps issued "
          "inline or from other goroutines; the patterns unit plays every ordered pair of the six patterns for each idle timeout and pool limits "
          "1,10 (1,2,5,10 thorough). The exitrace unit schedules a prompt callback, waits until about the (calibrated) moment the idle worker leaves, "
-         "schedules the next one, thousands of times with the arrival offset swept across the exit moment. Checked: every future that was not cancelled starts within 3 s of call-return + delay; when nothing is "
+         "schedules the next one, thousands of times with the arrival offset tracking the exit moment, and it also forces the order 'the last idle worker decides to leave, a Call "
+         "arrives right behind it' through the package lock (FIFO hand-over of a starving sync.Mutex). Checked: every future that was not cancelled starts within 3 s of call-return + delay; when nothing is "
          "pending the package reaches zero worker goroutines within 3*idle + 5 s; a Call after that fires within 3 s. non-trivial = a near future "
          "was scheduled while only far ones were pending, or a burst exceeded the pool limit, or a Call hit a completely wound-down pool; "
          "distinct = hash of the case; classes max_lateness:* give the observed lateness histogram",
